@@ -10,6 +10,7 @@
 #include "types.h"
 #include "utils.h"
 #include "value.h"
+#include "verif_hooks.h"
 
 #include <algorithm>
 #include <chrono>
@@ -54,6 +55,7 @@ void add_new_move_to_pv_list(Info* destInfo, Move move, Info* srcInfo)
     ASSERT(destInfo != nullptr);
     const int len = srcInfo->_pv_list_length;
     ASSERT(len < MAX_DEPTH * 2);
+    VERIF_BOUND(len, MAX_DEPTH * 2, "search.cpp:pv_list");
     destInfo->_pv_list_length = len + 1;
     destInfo->_pv_list[0] = move;
     std::memcpy(destInfo->_pv_list.data() + 1, srcInfo->_pv_list.data(),
@@ -172,13 +174,18 @@ Search::Search(const Position& position, const Limits& limits,
 
 void Search::stop()
 {
+    VERIF_POINT(STOP_ENTER, this, &stop_search, nullptr, 0, 0);
     stop_search = true;
+    VERIF_POINT(STOP_DONE, this, &stop_search, nullptr, 0, 0);
 }
 
 void Search::go()
 {
+    VERIF_POINT(GO_ENTRY, this, &stop_search, &_position, 0, 0);
     init_search();
+    VERIF_POINT(GO_INIT_DONE, this, &stop_search, &_position, 0, 0);
     stop_search = false;
+    VERIF_POINT(GO_RESET_DONE, this, &stop_search, &_position, 0, 0);
     _start_time = std::chrono::steady_clock::now();
 
     // check if there is only one move to make
@@ -189,7 +196,9 @@ void Search::go()
     iter_search();
 
     ASSERT(_best_move != NO_MOVE);
+    VERIF_POINT(BEFORE_BESTMOVE, this, &stop_search, &_position, _best_move, 0);
     sync_cout << "bestmove " << _position.uci(_best_move) << sync_endl;
+    VERIF_POINT(AFTER_BESTMOVE, this, &stop_search, &_position, _best_move, 0);
 }
 
 void Search::init_search()
@@ -260,6 +269,8 @@ void Search::iter_search()
     while (!stop_search)
     {
         _current_depth++;
+        VERIF_POINT(ITER_BEGIN, this, &stop_search, &_position, _current_depth, 0);
+        VERIF_BOUND(_current_depth, MAX_DEPTH + 1, "search.cpp:previous_moves");
 
         _stats = SearchStats{};
 
@@ -316,6 +327,7 @@ void Search::iter_search()
             _best_move = realInfo->_pv_list[0];
         }
         previous_moves[_current_depth] = _best_move;
+        VERIF_POINT(ITER_END, this, &stop_search, &_position, _current_depth, 0);
 
         if (is_mate(result)) break;
 
@@ -330,8 +342,10 @@ Value Search::search(Position& position, Depth depth, Value alpha, Value beta,
 {
     ASSERT(alpha < beta);
 
+    VERIF_BOUND(info - _stack_info.data(), MAX_DEPTH * 2, "search.cpp:stack_info(search)");
     info->_ply = (info - 1)->_ply + 1;
     clear_pv_list(info);
+    VERIF_POINT(NODE, this, &stop_search, &position, info->_ply, depth);
 
     const bool ROOT_NODE = info->_ply == 0;
     const bool PV_NODE = beta != alpha + 1;
@@ -350,6 +364,7 @@ Value Search::search(Position& position, Depth depth, Value alpha, Value beta,
     // without any move
     if (!ROOT_NODE && (position.is_repeated() || position.is_draw())) EXIT_SEARCH(VALUE_DRAW);
 
+    VERIF_BOUND(info->_ply, 4 * MAX_DEPTH, "search.cpp:MOVE_LIST(search)");
     Move* begin = ROOT_NODE ? &(*_root_moves.begin()) : MOVE_LIST[info->_ply];
     Move* end = ROOT_NODE ? &(*_root_moves.end())
                           : generate_moves(position, position.color(), begin);
@@ -649,8 +664,10 @@ Value Search::quiescence_search(Position& position, Depth depth, Value alpha,
 {
     ASSERT(alpha < beta);
 
+    VERIF_BOUND(info - _stack_info.data(), MAX_DEPTH * 2, "search.cpp:stack_info(qsearch)");
     info->_ply = (info - 1)->_ply + 1;
     clear_pv_list(info);
+    VERIF_POINT(QNODE, this, &stop_search, &position, info->_ply, depth);
 
     const bool PV_NODE = beta != alpha + 1;
 
@@ -692,6 +709,7 @@ Value Search::quiescence_search(Position& position, Depth depth, Value alpha,
         if (PV_NODE && standpat > alpha) alpha = standpat;
     }
 
+    VERIF_BOUND(info->_ply, 4 * MAX_DEPTH, "search.cpp:MOVE_LIST(qsearch)");
     Move* begin = MOVE_LIST[info->_ply];
     Move* end = generate_moves(position, position.color(), begin);
     const int n_moves = end - begin;
